@@ -1,4 +1,5 @@
 import FgaVerif.Model.WGraph
+import FgaVerif.Proofs.Sort
 /-! Lemmas about the construction half of the weighted graph (`Model/WGraph.lean`): the edge list of a
     source node under `AddEdge` / `UpsertEdge` / `HasEdge`, and the invariant they maintain. -/
 namespace FgaVerif.Model.WGraph
@@ -766,5 +767,59 @@ theorem buildTypes_step (m : Model) (tds : List TypeDef) (g g' : G)
 
 theorem build_inv (m : Model) (g : G) (h : build m = .ok g) : Inv g :=
   (buildTypes_step m _ _ _ h).inv Inv.empty
+
+
+/-! ### every type and every defined relation has its node -/
+
+theorem Ext.label_mono {g g' : G} (h : Ext g g') (l : String) (hl : l ∈ g.nodes.map (·.uniqueLabel)) :
+    l ∈ g'.nodes.map (·.uniqueLabel) := by
+  obtain ⟨n, hn, rfl⟩ := List.mem_map.1 hl
+  exact List.mem_map.2 ⟨n, h.nodes.subset hn, rfl⟩
+
+theorem buildRelations_labels (m : Model) (td : TypeDef) (rels : List (String × Userset)) (g g' : G)
+    (h : buildRelations m td rels g = .ok g') :
+    ∀ ru ∈ rels, (td.name ++ "#" ++ ru.1) ∈ g'.nodes.map (·.uniqueLabel) := by
+  induction rels generalizing g with
+  | nil => intro ru hru; simp at hru
+  | cons ru rest ih =>
+    obtain ⟨rel, u⟩ := ru
+    simp only [buildRelations] at h
+    split at h
+    · cases h
+    · rename_i g1 hr
+      intro x hx
+      rcases List.mem_cons.1 hx with rfl | hx
+      · have h0 := getOrAddNode_mem g (td.name ++ "#" ++ rel) (td.name ++ "#" ++ rel) .typeAndRelation
+        have e1 := (parseRewrite_step m td rel u _ _ _ _ hr).ext
+        have e2 := (buildRelations_step m td rest _ _ h).ext
+        exact e2.label_mono _ (e1.label_mono _ h0)
+      · exact ih _ h x hx
+
+theorem buildTypes_labels (m : Model) (tds : List TypeDef) (g g' : G) (h : buildTypes m tds g = .ok g') :
+    ∀ td ∈ tds, td.name ∈ g'.nodes.map (·.uniqueLabel) ∧
+      ∀ ru ∈ td.relations, (td.name ++ "#" ++ ru.1) ∈ g'.nodes.map (·.uniqueLabel) := by
+  induction tds generalizing g with
+  | nil => intro td htd; simp at htd
+  | cons a rest ih =>
+    simp only [buildTypes] at h
+    split at h
+    · cases h
+    · rename_i g1 hr
+      intro td htd
+      rcases List.mem_cons.1 htd with rfl | htd
+      · have h0 := getOrAddNode_mem g td.name td.name .specificType
+        have e1 := (buildRelations_step m td _ _ _ hr).ext
+        have e2 := (buildTypes_step m rest _ _ h).ext
+        refine ⟨e2.label_mono _ (e1.label_mono _ h0), ?_⟩
+        intro ru hru
+        exact e2.label_mono _ (buildRelations_labels m td _ _ _ hr ru hru)
+      · exact ih _ h td htd
+
+theorem build_labels (m : Model) (g : G) (h : build m = .ok g) :
+    ∀ td ∈ m.types, td.name ∈ g.nodes.map (·.uniqueLabel) ∧
+      ∀ ru ∈ td.relations, (td.name ++ "#" ++ ru.1) ∈ g.nodes.map (·.uniqueLabel) := by
+  intro td htd
+  unfold build at h
+  exact buildTypes_labels m _ _ _ h td ((FgaVerif.insertionSort_perm _ _).mem_iff.2 htd)
 
 end FgaVerif.Model.WGraph
